@@ -57,9 +57,9 @@ pub open spec fn cfun(c: v1::Constraint) -> v1::Function { match c.function { So
     for n, where in (('Function::zero', 'C02'), ('Instance::binary_ids', 'assumed (iterator filter/collect)'),
                      ('Function::used_decision_variable_ids (C08)', 'C08 for Constant/Linear and the dispatch; the Quadratic/Polynomial collects are assumed there'),
                      ('IntoIterator for &Function (term iterator)', 'assumed (Box<dyn Iterator>: outside the dialect; precondition fn_coo_ok); exercised by the bounded stand-in'),
-                     ('TryFrom<SortedIds> for BinaryIdPair', 'assumed (slice patterns: outside Verus); exercised by the bounded stand-in')):
+                     ('slice::sort_unstable + Vec::dedup (helper vec_sort_dedup)', 'std contract')):
         asm.stubs.append(dict(unit=n, proved_in=where))
-    for u in (ev.instance_objective(), qubo.binary_ids_from_sorted(), qubo.as_pubo_format(), qubo.as_qubo_format()):
+    for u in [ev.instance_objective(), qubo.binary_ids_from_sorted()] + qubo.binary_id_pair_try_from() + [qubo.as_pubo_format(), qubo.as_qubo_format()]:
         asm.unit(u)
     asm.raw('} // mod units\n')
     asm.guard(common.guard_fn('c11', 'broadcast use ax_zero_f64, ax_binary_ids_cmp, ax_binary_id_pair_cmp;', uses='use super::lib::*;'), 'vacuity: axioms')
